@@ -558,7 +558,6 @@ pub const KF_GAS_PAIR: &str = "C05/bubble-dew-zero-pressure-gas-pair";
 pub const KF_HETERO_COPIES: &str = "C05/heteroazeotrope-identical-liquids";
 pub const KF_NEAR_TRIVIAL: &str = "C05/near-trivial-two-phase-result";
 pub const KF_FLASH_RR: &str = "C05/flash-rachford-rice-lattice";
-pub const KF_FLASH_INIT: &str = "C05/flash-converged-initial-state-not-rescaled";
 pub const KF_BEYOND_MAX: &str = "C05/bubble-dew-beyond-max-density";
 
 pub fn rel_density(s: &St) -> f64 {
@@ -810,6 +809,9 @@ pub struct LatticeCase {
 }
 
 pub const THETAS: [f64; 3] = [0.1, 0.5, 0.9];
+/// inner options of the lattice variants (outer options default)
+pub const LATTICE_INNER_A: SolverOpt = SolverOpt { max_iter: Some(2), tol: Some(1e-2) };
+pub const LATTICE_INNER_B: SolverOpt = SolverOpt { max_iter: None, tol: Some(1e-2) };
 pub const LATTICE_T: [f64; 6] = [0.65, 0.7, 0.75, 0.8, 0.85, 0.9];
 pub const LATTICE_X: [f64; 7] = [0.05, 0.2, 0.35, 0.5, 0.65, 0.8, 0.95];
 
@@ -878,6 +880,23 @@ pub fn check_lattice(case: &LatticeCase, obs: &mut Obs) {
     if !usable {
         return;
     }
+    // the inner options only steer the inner loop: with a loose / short inner loop and the default
+    // outer loop the points are still found and meet the default (outer) tolerances
+    for (inner, what) in [(LATTICE_INNER_A, "inner max_iter 2, tol 1e-2"), (LATTICE_INNER_B, "inner tol 1e-2")] {
+        let o2 = (inner.to(), SolverOptions::default());
+        match PhaseEquilibrium::bubble_point(&b.eos, b.t, &b.x, None, None, o2) {
+            Ok(pe) => {
+                check_bubble_dew_t(obs, "bubble(T) loose inner", &pe, true, b.t, &b.x, &tol_b);
+            }
+            Err(e) => obs.fail(format!("success clause: bubble point not found with {what} and default outer options ({}) for {here}", err_name(&e))),
+        }
+        match PhaseEquilibrium::dew_point(&b.eos, b.t, &b.x, None, None, o2) {
+            Ok(pe) => {
+                check_bubble_dew_t(obs, "dew(T) loose inner", &pe, false, b.t, &b.x, &tol_b);
+            }
+            Err(e) => obs.fail(format!("success clause: dew point not found with {what} and default outer options ({}) for {here}", err_name(&e))),
+        }
+    }
     let (pb, pd) = (p_of(&bub), p_of(&dew));
     if stable_vle(&bub) && stable_vle(&dew) {
         obs.ensure(pb >= pd - 1e-7 * pb.abs(), || format!("p_bubble {pb:e} < p_dew {pd:e} for {here}"));
@@ -901,6 +920,28 @@ pub fn check_lattice(case: &LatticeCase, obs: &mut Obs) {
                 let (beta, kdev) = check_flash(obs, "flash default", &pe, b.t, p, &fm, &tol_f);
                 if beta > 0.02 && beta < 0.98 && kdev > 0.05 {
                     nontrivial = true;
+                }
+                // initial state solved at another temperature (T +- 2 %, same feed and pressure):
+                // the result must sit at the specified T
+                if th == 0.5 {
+                    let dt = if case.mix.x[0] < 0.5 { 0.02 } else { -0.02 };
+                    let pq = Pressure::from_reduced(p);
+                    let fq = feed.clone() * MOL;
+                    match PhaseEquilibrium::tp_flash(&b.eos, b.t * (1.0 + dt), pq, &fq, None, SolverOptions::default(), None) {
+                        Ok(init) => {
+                            obs.class("flash with an initial state of another temperature");
+                            match PhaseEquilibrium::tp_flash(&b.eos, b.t, pq, &fq, Some(&init), SolverOptions::default(), None) {
+                                Ok(pe2) => {
+                                    check_flash(obs, "flash init other T", &pe2, b.t, p, &fm, &tol_f);
+                                }
+                                Err(e) => obs.fail(format!(
+                                    "success clause: flash with an initial state solved at T (1 {dt:+}) failed ({}) where the flash without initial state succeeds, for {here}",
+                                    err_name(&e)
+                                )),
+                            }
+                        }
+                        Err(_) => obs.class("no two-phase initial state at the other temperature"),
+                    }
                 }
             }
             Err(e) => {
@@ -937,8 +978,12 @@ pub struct PointsCase {
     /// p-specification: initial temperature = T x t_init_rel
     pub t_init_rel: f64,
     /// 0 none, 1 perturbed phase compositions at (T,p), 2 bubble-point phases as initial state,
-    /// 3 none, then the converged result as initial state of a second flash with another feed on the tie line
+    /// 3 none, then the converged result as initial state of a second flash with another feed on the tie line,
+    /// 4 a flash result of the same feed and pressure solved at T (1 + init_dt)
     pub flash_init: u8,
+    /// relative temperature offset of the initial state of flash_init = 4 (+-1..4 %)
+    #[serde(default)]
+    pub init_dt: f64,
     pub via_state: bool,
     /// total feed amount (mol)
     pub n_feed: f64,
@@ -953,20 +998,40 @@ pub fn gen_mixpoint(g: &mut Gen, max_n: usize) -> MixPoint {
     MixPoint { spec, t_rel, x }
 }
 
+/// inner options: default (40 %), tight (20 %: max_iter 2-20, tol 1e-11..1e-7) or loose (40 %:
+/// max_iter 1-5 and/or tol 1e-6..1e-2); second value: loose
+pub fn gen_inner(g: &mut Gen) -> (SolverOpt, bool) {
+    match g.index(5) {
+        0 | 1 => (SolverOpt::default(), false),
+        2 => (gen_opt(g, 1.0, (2, 20), (1e-11, 1e-7)), false),
+        _ => {
+            let max_iter = if g.bool(0.5) { Some(g.int(1, 5) as usize) } else { None };
+            let tol = if max_iter.is_none() || g.bool(0.6) { Some(g.log_range(1e-6, 1e-2)) } else { None };
+            (SolverOpt { max_iter, tol }, true)
+        }
+    }
+}
+
 pub fn decode_points(g: &mut Gen) -> PointsCase {
     let mix = gen_mixpoint(g, 3);
+    let (inner, loose) = gen_inner(g);
+    // a loose inner loop is mostly combined with the default outer loop: the result must still
+    // meet the outer tolerance
+    let outer = gen_opt(g, 0.4, (30, 800), (1e-12, 1e-8));
+    let outer = if loose && g.bool(0.7) { SolverOpt::default() } else { outer };
     PointsCase {
         mix,
         theta: g.range(0.02, 0.98),
-        inner: gen_opt(g, 0.4, (2, 20), (1e-11, 1e-7)),
-        outer: gen_opt(g, 0.4, (30, 800), (1e-12, 1e-8)),
+        inner,
+        outer,
         flash: gen_opt(g, 0.4, (20, 800), (1e-11, 1e-6)),
         p_factor: if g.bool(0.5) { Some(g.log_range(1.0 / 3.0, 3.0)) } else { None },
         x2_shift: if g.bool(0.5) { Some(g.range(-1.0, 1.0)) } else { None },
         t_init_rel: g.range(0.95, 1.05),
-        flash_init: g.index(4) as u8,
+        flash_init: g.index(5) as u8,
         via_state: g.bool(0.3),
         n_feed: g.log_range(1e-2, 1e2),
+        init_dt: g.range(0.01, 0.04) * if g.bool(0.5) { -1.0 } else { 1.0 },
     }
 }
 
@@ -987,7 +1052,12 @@ pub fn check_points(case: &PointsCase, obs: &mut Obs) {
     let opts2 = (case.inner.to(), case.outer.to());
     let variant_opts = !case.inner.is_default() || !case.outer.is_default();
     let tol_b0 = tols_bubble(&SolverOpt::default());
+    // the inner options only steer the inner loop: the result answers to the outer tolerance alone
     let tol_b1 = tols_bubble(&case.outer);
+    let loose_inner = case.inner.tol.map(|t| t >= 1e-6).unwrap_or(false) || case.inner.max_iter.map(|m| m <= 5).unwrap_or(false);
+    if loose_inner {
+        obs.class(if case.outer.is_default() { "loose inner options, default outer" } else { "loose inner options, sampled outer" });
+    }
     // default solves
     let (bub0, dew0) = envelope(&b);
     class_result(obs, "bubble(T) default", &bub0);
@@ -1022,6 +1092,9 @@ pub fn check_points(case: &PointsCase, obs: &mut Obs) {
                 PhaseEquilibrium::dew_point(&b.eos, b.t, &b.x, p_init, x2.as_ref(), opts2)
             };
             class_result(obs, &format!("{name}(T) variant"), &r);
+            if loose_inner && case.outer.is_default() {
+                class_result(obs, &format!("{name}(T) loose inner / default outer"), &r);
+            }
             if let Ok(pe) = &r {
                 check_bubble_dew_t(obs, &format!("{name}(T) variant"), pe, bubble, b.t, &b.x, &tol_b1);
                 compared += 1;
@@ -1069,6 +1142,11 @@ pub fn check_points(case: &PointsCase, obs: &mut Obs) {
                 PhaseEquilibrium::new_npt(&b.eos, b.t, pq, &(yv * MOL), &(xl * MOL)).ok()
             }
             2 => Some(bub.clone()),
+            4 => {
+                // a converged flash of the same feed and pressure at another temperature
+                let dt = if case.init_dt == 0.0 { 0.02 } else { case.init_dt };
+                PhaseEquilibrium::tp_flash(&b.eos, b.t * (1.0 + dt), pq, &feed_q, None, SolverOptions::default(), None).ok()
+            }
             _ => None,
         };
         if init.is_some() {
@@ -1082,28 +1160,7 @@ pub fn check_points(case: &PointsCase, obs: &mut Obs) {
         class_result(obs, "flash", &r);
         let ftag = if case.flash.is_default() { "flash default" } else { "flash variant" };
         if let Ok(pe) = &r {
-            let mut tmp = Obs::default();
-            let (beta, kdev) = check_flash(&mut tmp, ftag, pe, b.t, p, &feed_q.to_reduced(), &tols_flash(&case.flash));
-            // signature of KF_FLASH_INIT: the returned phases carry the amounts of the initial state
-            let unchanged = init
-                .as_ref()
-                .map(|i| pe.vapor().moles.to_reduced() == i.vapor().moles.to_reduced() && pe.liquid().moles.to_reduced() == i.liquid().moles.to_reduced())
-                .unwrap_or(false);
-            obs.comparisons += tmp.comparisons;
-            for c in tmp.classes {
-                obs.class(c);
-            }
-            for (id, m) in tmp.known {
-                obs.known_or_fail(&id, m);
-            }
-            for f in tmp.fails {
-                if unchanged && f.contains("v+l = feed") {
-                    obs.class("known signature: converged initial state returned unchanged");
-                    obs.known_or_fail(KF_FLASH_INIT, f);
-                } else {
-                    obs.fail(f);
-                }
-            }
+            let (beta, kdev) = check_flash(obs, ftag, pe, b.t, p, &feed_q.to_reduced(), &tols_flash(&case.flash));
             compared += 1;
             obs.class(if beta < 0.02 || beta > 0.98 { "beta at the edge" } else { "beta inside (0.02,0.98)" });
             if beta > 0.02 && beta < 0.98 && kdev > 0.05 {
@@ -1119,21 +1176,7 @@ pub fn check_points(case: &PointsCase, obs: &mut Obs) {
                 let r2 = PhaseEquilibrium::tp_flash(&b.eos, b.t, pq, &feed2, Some(pe), case.flash.to(), None);
                 class_result(obs, "flash re-fed", &r2);
                 if let Ok(pe2) = &r2 {
-                    let n0 = obs.fails.len();
-                    let mut tmp = Obs::default();
-                    check_flash(&mut tmp, "flash re-fed", pe2, b.t, p, &feed2.to_reduced(), &tols_flash(&case.flash));
-                    obs.comparisons += tmp.comparisons;
-                    let unchanged = pe2.vapor().moles.to_reduced() == pe.vapor().moles.to_reduced() && pe2.liquid().moles.to_reduced() == pe.liquid().moles.to_reduced();
-                    for f in tmp.fails {
-                        if unchanged && f.contains("v+l = feed") {
-                            // signature: the returned phases are the initial state, bit for bit
-                            obs.class("known signature: converged initial state returned unchanged");
-                            obs.known_or_fail(KF_FLASH_INIT, f);
-                        } else {
-                            obs.fail(f);
-                        }
-                    }
-                    let _ = n0;
+                    check_flash(obs, "flash re-fed", pe2, b.t, p, &feed2.to_reduced(), &tols_flash(&case.flash));
                     variant = true;
                 }
             }
@@ -1474,9 +1517,10 @@ pub fn scaled(p: &PartCfg) -> PartCfg {
 }
 
 pub fn run(ctx: &Ctx) {
-    ctx.set_rule("lattice (seed-independent, success clause): hydrocarbon pairs of gross2001 (formula only C,H) with pure-T_c ratio < 1.5 x T/T_c,low in {0.65,..,0.9} x x_1 in {0.05,0.2,..,0.95}; each case = bubble(T,x) + dew(T,x) + flashes at p = p_dew + theta (p_bub - p_dew), theta in {0.1,0.5,0.9} when p_bub/p_dew > 1.05 (narrower envelopes excluded and counted as a class); quick tier: every 4th admissible pair, thorough: all pairs. points (sampled): binary/ternary mixtures of shipped PC-SAFT hydrocarbons (all files), other PC-SAFT records of the small files, gc-PC-SAFT (gc_substances x 3 segment tables), SAFT-VR Mie (lafitte2013); partner records chosen with T_c ratio < 1.8; k_ij in +-0.08 (p 0.6) or the shipped binary record; T/T_c,low in [0.6,0.95]; composition in the simplex with x_i >= 0.02; option pairs (inner max_iter 2-20, tol 1e-11..1e-7; outer 30-800, 1e-12..1e-8; flash 20-800, 1e-11..1e-6), initial pressure within a factor 3, perturbed incipient composition, p-specification with initial T within 5 %, flash initial states, State::tp_flash vs PhaseEquilibrium::tp_flash, feed amount 1e-2..1e2 mol. diagram (sampled): binary_vle at given T / at given p, bubble_point_line, dew_point_line with npoints in [5,60]. hetero (sampled): gross2002 water + 11 alcohols / 10 hydrocarbons, 290-420 K: heteroazeotrope(T), heteroazeotrope(p), binary_vlle, PhaseDiagram::lle, liquid-liquid tp_flash. Non-trivial: a flash with vapor fraction in (0.02,0.98) and all |K_i - 1| > 5 %; or >= 2 checked bubble/dew results with |K_i - 1| > 5 % of which one used a non-default option or guess; diagrams: >= 3 regular states with |K_i-1| > 5 %; hetero: liquids differing by > 0.05 in x_water. Distinct by hash of the canonical case JSON.");
+    ctx.set_rule("lattice (seed-independent, success clause): hydrocarbon pairs of gross2001 (formula only C,H) with pure-T_c ratio < 1.5 x T/T_c,low in {0.65,..,0.9} x x_1 in {0.05,0.2,..,0.95}; each case = bubble(T,x) + dew(T,x) with default options and with two loose inner option sets (max_iter 2 / tol 1e-2; tol 1e-2) under default outer options + flashes at p = p_dew + theta (p_bub - p_dew), theta in {0.1,0.5,0.9} when p_bub/p_dew > 1.05, at theta = 0.5 also with an initial state solved at T (1 +- 2 %) (narrower envelopes excluded and counted as a class); quick tier: every 4th admissible pair, thorough: all pairs. points (sampled): binary/ternary mixtures of shipped PC-SAFT hydrocarbons (all files), other PC-SAFT records of the small files, gc-PC-SAFT (gc_substances x 3 segment tables), SAFT-VR Mie (lafitte2013); partner records chosen with T_c ratio < 1.8; k_ij in +-0.08 (p 0.6) or the shipped binary record; T/T_c,low in [0.6,0.95]; composition in the simplex with x_i >= 0.02; option pairs (inner: default 40 %, tight 20 % (max_iter 2-20, tol 1e-11..1e-7), loose 40 % (max_iter 1-5 and/or tol 1e-6..1e-2, then mostly with default outer options); outer 30-800, 1e-12..1e-8; flash 20-800, 1e-11..1e-6), initial pressure within a factor 3, perturbed incipient composition, p-specification with initial T within 5 %, flash initial states (perturbed phases, bubble-point phases, the converged result re-fed with another feed, a flash result solved at T (1 +- 1..4 %)), State::tp_flash vs PhaseEquilibrium::tp_flash, feed amount 1e-2..1e2 mol. diagram (sampled): binary_vle at given T / at given p, bubble_point_line, dew_point_line with npoints in [5,60]. hetero (sampled): gross2002 water + 11 alcohols / 10 hydrocarbons, 290-420 K: heteroazeotrope(T), heteroazeotrope(p), binary_vlle, PhaseDiagram::lle, liquid-liquid tp_flash. Non-trivial: a flash with vapor fraction in (0.02,0.98) and all |K_i - 1| > 5 %; or >= 2 checked bubble/dew results with |K_i - 1| > 5 % of which one used a non-default option or guess; diagrams: >= 3 regular states with |K_i-1| > 5 %; hetero: liquids differing by > 0.05 in x_water. Distinct by hash of the canonical case JSON.");
     ctx.assume("every condition is recomputed from fresh states State::new_nvt(T,V,N) of the returned phases (public getters ln_phi, molefracs, pressure)");
     ctx.assume("fugacity equality is tested on ln f_i = ln(x_i phi_i p) (tolerance 1e-6 = 100 x the flash tolerance, or 100 x a looser sampled tolerance) and pressure equality separately (1e-7 relative + an absolute term in reduced units: 1e-10 flash = 100 x the density-iteration tolerance, 1e-7 bubble/dew = 1000 x TOL_OUTER, 1e-6 heteroazeotrope = 100 x TOL_HETERO; diagram states above 0.95 T_c,low, outside the temperature range of the quantifier, 100 x looser): ln(x_i phi_i) alone contains -ln p of each phase, so a pressure roundoff of a liquid at vanishing pressure would otherwise show up as a fugacity mismatch");
+    ctx.assume("bubble/dew results answer to the OUTER tolerance only (inner options steer the inner loop); on the lattice loose inner options with default outer options must still succeed");
     ctx.assume("the critical end point appended by binary_vle / bubble_point_line / dew_point_line (two bitwise identical states by construction) is exempt from the 'not copies' clause");
     ctx.assume("p_bubble >= p_dew is asserted only where both results are vapor-liquid pairs (rho_v < rho_l / 2) of phases that is_stable reports stable: models with a liquid-liquid split have metastable bubble/dew branches on which the inequality is not a theorem (relies on C07); never for the water systems of the hetero part");
     ctx.assume("success clause domain as stated in DESIGN.md C05; T_c of the pure records from State::critical_point (cached), validated by C06");
